@@ -184,7 +184,10 @@ class Bisection1D:
         # find upper bound that respects max_boreholes
         if self.sim_params.max_boreholes is not None:
             num_coordinates_in_each = [len(x) for x in self.coordinates_domain]
-            x_r_idx = [idx for idx, x in enumerate(num_coordinates_in_each) if x < self.sim_params.max_boreholes][-1]
+            within_cap = [idx for idx, x in enumerate(num_coordinates_in_each) if x < self.sim_params.max_boreholes]
+            if len(within_cap) == 0:
+                raise ValueError("Search failed. No candidate field has fewer boreholes than max_boreholes.")
+            x_r_idx = within_cap[-1]
         else:
             x_r_idx = len(self.coordinates_domain) - 1
 
